@@ -12,6 +12,10 @@ def main():
     if a.only:
         names = [n for n in names if n in a.only.split(",")]
     run_cases(chk, "vlib.kernelprops", "purity", names, {"tier": a.tier}, a.jobs)
+    from vlib import randforms
+    rnames = [randforms.name_of(chk.seed, i) for i in range(12 if a.tier == "quick" else 160)] if not a.only else []
+    run_cases(chk, "vlib.kernelprops", "purity", rnames, {"tier": "quick"}, a.jobs)
+    chk.extra["random_forms"] = len(rnames)
     chk.encoded("generated tabulate_tensor_* C text (all integral types) executed with symbolic initial A")
     chk.bounds = {"programs": len(names), "A0": "every initial A entry a free symbol", "inputs": "all symbolic",
                   "entities/permutations": "quick: 3 entity configs x 2 permutation pairs; thorough: all entity configs x up to 16 permutation pairs"}
